@@ -189,6 +189,12 @@ func c04Run(c c04Case, x *vh.Ctx, contain bool) *vh.Failure {
 		t2 := reflect.New(tg.rt)
 		used = exactAlloc(func() { p.Unmarshal(exact, t2.Interface()) })
 		if used > limit {
+			if c.T.IsRecursive() && err1 != nil && used <= uint64(64<<10)+64*uint64(len(data))*uint64(len(data)) {
+				// a rejected input that nests a recursive type once per byte or two: every level wraps the error of the
+				// level below in a longer message, so the total grows with the square of the depth (known finding F29).
+				// Anything beyond that quadratic envelope, or on a non-recursive type, is reported as a plain blow-up.
+				return vh.Fail("C04/alloc-blowup/error-chain-of-recursive-type", "Unmarshal of %d bytes into %s failed (%.80s...) after allocating %d bytes (bound %d = 64KiB + %d*len)", len(data), c.T, err1.Error(), used, limit, 8*tg.maxElem+64)
+			}
 			return vh.Fail("C04/alloc-blowup", "Unmarshal of %d bytes into %s allocated %d bytes (bound %d = 64KiB + %d*len)", len(data), c.T, used, limit, 8*tg.maxElem+64)
 		}
 	}
